@@ -1202,6 +1202,8 @@ def check_C15(ctx):
             if rng.random() < 0.3:
                 gens[-1] += 'k'          # key exhaustion in this generation
         jobs.append((gens, {}))
+    # one long history of small generations (tables that are appended to at every initialisation overflow only then)
+    jobs.append((['a:%d' % rng.choice((1, 1, 2, 3)) for _ in range(150 if ctx.quick else 600)], {}))
     nenv = 40 if ctx.quick else 400
     interesting = [c for c in cases if c[0] and '\x00' not in c[0]]
     for h in range(nenv):
@@ -1745,12 +1747,15 @@ def gen_pth_prog(rng):
             th[t] = b + (ends(t) if how == 'join' else rng.choice(([], [('EXIT', 5, 0, 0)])))
             if how == 'join':
                 main.append(('JOIN', t, 0, 0))
-    return {'threads': [th[t] for t in range(1, NT + 1)], 'barn': barn, 'keydt': keydt, 'mkind': mkind, 'kind': kind}
+    # the keys under test get indices 0..3, or larger ones (other leaves / branches of the per-thread key tree) when
+    # keys without destructor are created first
+    nfill = rng.choice((0, 0, 13, 14, 16, 29, 61, 250)) if kind == 'keys' else 0
+    return {'threads': [th[t] for t in range(1, NT + 1)], 'barn': barn, 'keydt': keydt, 'mkind': mkind, 'kind': kind, 'nfill': nfill}
 
 
 def write_pth_prog(path, prog):
     with open(path, 'w') as f:
-        f.write('%d\n%s\n%s\n%s\n' % (len(prog['threads']), ' '.join(map(str, prog['barn'])), ' '.join(map(str, prog['keydt'])), ' '.join(map(str, prog['mkind']))))
+        f.write('%d\n%s\n%s\n%s\n%d\n' % (len(prog['threads']), ' '.join(map(str, prog['barn'])), ' '.join(map(str, prog['keydt'])), ' '.join(map(str, prog['mkind'])), prog.get('nfill', 0)))
         for b in prog['threads']:
             f.write('%d\n' % len(b))
             for o in b:
@@ -1884,7 +1889,7 @@ def check_C16(ctx):
         for k_, o in enumerate(b):
             if o[0] == 'ADD' and not done:
                 b[k_] = ['ADD', o[1], o[2] + 1, o[3]]; done = True
-    mp = os.path.join(pdir, 'mut.prog'); write_pth_prog(mp, {'threads': [[tuple(o) for o in b] for b in mutp['threads']], 'barn': mutp['barn'], 'keydt': mutp['keydt'], 'mkind': mutp['mkind']})
+    mp = os.path.join(pdir, 'mut.prog'); write_pth_prog(mp, {'threads': [[tuple(o) for o in b] for b in mutp['threads']], 'barn': mutp['barn'], 'keydt': mutp['keydt'], 'mkind': mutp['mkind'], 'nfill': mutp.get('nfill', 0)})
     rc, o = sh('timeout 30 %s %s' % (b_ld, mp), timeout=60, env={'MYTH_NUM_WORKERS': '2'})
     line = [l for l in o.split('\n') if l.startswith('{')]
     if rc == 0 and line and norm_result(json.loads(line[-1])) == expected[i0]:
